@@ -542,6 +542,12 @@ func zipReplayScratch(id string) *zipScratch {
 	return newZipScratch(filepath.Join("/verif/.work", "replay-"+id))
 }
 
+// zipDocFilePathOK is the documented rule for file paths (module.CheckFilePath's doc comment),
+// stated independently of the implementation: the literal doc-rules oracle of C06 (non-empty
+// elements of letters, digits, space and the listed punctuation; no trailing dot; the prefix up
+// to the FIRST dot is not a reserved Windows name in any case).
+func zipDocFilePathOK(p string) bool { return c06DocPathOK(c06File, p, false) }
+
 // ---- the documented classification rules, written independently of checkFiles -------------
 
 type zipSpecReport struct {
@@ -667,7 +673,7 @@ func zipSpecCheckFiles(files []gen.ZipFileSpec) zipSpecReport {
 			report(p, true, "submodule-file")
 		case p == ".hg_archival.txt":
 			report(p, true, "hgarchival")
-		case module.CheckFilePath(p) != nil:
+		case !zipDocFilePathOK(p):
 			report(p, false, "badpath")
 		case p != "go.mod" && strings.EqualFold(p, "go.mod"):
 			report(p, false, "gomodcase")
@@ -830,8 +836,8 @@ func zipSpecArchive(m module.Version, es []gen.ZipArchEntry) (ok bool, why strin
 		if path.Clean(name) != name {
 			return false, fmt.Sprintf("%q is not clean", e.Name)
 		}
-		if err := module.CheckFilePath(name); err != nil {
-			return false, fmt.Sprintf("%q: %v", e.Name, err)
+		if !zipDocFilePathOK(name) {
+			return false, fmt.Sprintf("%q is not a valid file path by the documented rules", e.Name)
 		}
 		el := strings.Split(name, "/")
 		for i := len(el); i >= 1; i-- {
